@@ -618,4 +618,9 @@ _C06 = [
      'c06': _C06_CFG}
     for _c in ('path', 'query', 'fragment', 'userinfo')
 ]
+# `unquote_to_bytes(string)` for a str argument (the only kind `unquote` passes); the result is a bytes
+_C06.append({'module': 'boltons.urlutils', 'qualname': 'unquote_to_bytes', 'lean_name': 'unquote_to_bytes',
+             'params': {'string': 'Str'}, 'kind': 'function', 'result': 'Bytes',
+             'tie_theorem': 'C06.src_unquote_to_bytes_eq_model', 'translator': 'py2lean_c06',
+             'gen_file': 'urlutils_quote', 'c06': _C06_CFG})
 SPECS['C06'] = _C06
